@@ -250,34 +250,86 @@ def repo_file_hashes(rel_paths):
 
 
 # ---------------------------------------------------------------------------------------------- parallel map
-_PMAP_FN = None
-
-
-def _pmap_call(i):
-    import traceback as _tb
-    try:
-        return ("ok", _PMAP_FN(i))
-    except BaseException as e:  # noqa
-        return ("err", f"{type(e).__name__}: {e}\n{_tb.format_exc()}")
-
-
-def pmap(fn, n_items, procs=None):
-    """fork-based parallel map over range(n_items); `fn` and its closure are inherited by the workers (no pickling of
-    tasks), only results are pickled back.  A worker exception aborts the check (exit 3), it is never a verdict."""
-    global _PMAP_FN
-    import multiprocessing as mp
+def pmap(fn, n_items, procs=None, deadline_s=None):
+    """fork-based parallel map over range(n_items) without multiprocessing (no helper threads, no pickled tasks):
+    worker w handles items w, w+P, ...; each result is pickled to the worker's pipe as it is produced.  Items of a
+    worker that died or overran the deadline are re-run sequentially in the parent; a Python exception inside `fn`
+    aborts the check (exit 3), it is never a verdict."""
+    import pickle
+    import select
+    import struct
     procs = procs or int(os.environ.get("VERIF_PROCS", "14"))
+    deadline_s = deadline_s or float(os.environ.get("VERIF_PMAP_DEADLINE", "1500"))
     if n_items == 0:
         return []
     if procs <= 1 or n_items == 1:
         return [fn(i) for i in range(n_items)]
-    _PMAP_FN = fn
-    ctx = mp.get_context("fork")
-    with ctx.Pool(min(procs, n_items)) as pool:
-        res = pool.map(_pmap_call, range(n_items), chunksize=1)
-    out = []
-    for tag, val in res:
-        if tag == "err":
-            raise RuntimeError("worker failed: " + val)
-        out.append(val)
-    return out
+    procs = min(procs, n_items)
+    sys.stdout.flush()
+    sys.stderr.flush()
+    workers = []
+    for w in range(procs):
+        r, wr = os.pipe()
+        pid = os.fork()
+        if pid == 0:
+            os.close(r)
+            code = 0
+            try:
+                with os.fdopen(wr, "wb") as out:
+                    for i in range(w, n_items, procs):
+                        try:
+                            payload = pickle.dumps(("ok", i, fn(i)))
+                        except BaseException as e:  # noqa
+                            payload = pickle.dumps(("err", i, f"{type(e).__name__}: {e}\n{traceback.format_exc()}"))
+                        out.write(struct.pack("<Q", len(payload)) + payload)
+                        out.flush()
+            except BaseException:
+                code = 1
+            os._exit(code)
+        os.close(wr)
+        workers.append(dict(pid=pid, fd=r, buf=b"", done=False))
+    results = {}
+    errors = []
+    t_end = time.time() + deadline_s
+    live = {w["fd"]: w for w in workers}
+    while live and time.time() < t_end:
+        ready, _, _ = select.select(list(live), [], [], 1.0)
+        for fd in ready:
+            w = live[fd]
+            chunk = os.read(fd, 1 << 20)
+            if not chunk:
+                del live[fd]
+                os.close(fd)
+                w["done"] = True
+                continue
+            w["buf"] += chunk
+            while len(w["buf"]) >= 8:
+                (ln,) = struct.unpack("<Q", w["buf"][:8])
+                if len(w["buf"]) < 8 + ln:
+                    break
+                tag, i, val = pickle.loads(w["buf"][8:8 + ln])
+                w["buf"] = w["buf"][8 + ln:]
+                if tag == "ok":
+                    results[i] = val
+                else:
+                    errors.append(val)
+    for w in workers:
+        if not w["done"]:
+            try:
+                os.kill(w["pid"], 9)
+            except OSError:
+                pass
+            try:
+                os.close(w["fd"])
+            except OSError:
+                pass
+        try:
+            os.waitpid(w["pid"], 0)
+        except OSError:
+            pass
+    if errors:
+        raise RuntimeError("worker failed: " + errors[0])
+    missing = [i for i in range(n_items) if i not in results]
+    for i in missing:      # a worker died (solver crash) or overran: decide these items here, one by one
+        results[i] = fn(i)
+    return [results[i] for i in range(n_items)]
